@@ -40,9 +40,9 @@ def check(case, p, o, want):
     k, values = case["numbins"], case["values"]
     tiny_limit = opts.get("time_limit") is not None
     if not o.ok:
+        if want is None or tiny_limit:
+            return []               # "raises an error instead of returning a partition": any error type honours the statement
         if o.exc_type == "ValueError" and o.where == "integer_programming.optimal":
-            if want is None or tiny_limit:
-                return []                                   # refusing an infeasible request (or giving up on time) is the contract
             return [("refused-a-feasible-request", o.describe())]
         return [(f"exception:{o.exc_type}@{o.where}", o.describe())]
     if want is None:
